@@ -4,6 +4,7 @@ import (
 	"fmt"
 	"math/rand"
 	"sort"
+	"strings"
 
 	"github.com/openacid/slim/trie"
 	"github.com/openacid/testkeys"
@@ -106,7 +107,7 @@ func runBigCase(t *Tracer, m *Meta, r *rand.Rand, c *TrieCase, nq int, class str
 		}
 		t.Emit(Ev{"ev": "obsbig", "params": params, "n": len(c.Keys), "nret": len(ret), "opt": c.Opt4[:], "hasvals": c.HasVals(), "enc": c.Enc,
 			"loaded": pi, "items": items, "keycnt": stat["keycnt"], "nodecnt": stat["nodecnt"], "statpan": stat["pan"],
-			"stat3": []interface{}{stat["keycnt"], stat["nodecnt"], stat["levels"]}, "freshstat": freshStat})
+			"stat3": []interface{}{stat["keycnt"], stat["nodecnt"], stat["levels"]}, "freshstat": freshStat, "legacy": 0})
 		m.Calls += 4 * len(qs)
 	}
 	if params["prop"] == "C05" {
@@ -123,6 +124,73 @@ func runBigCase(t *Tracer, m *Meta, r *rand.Rand, c *TrieCase, nq int, class str
 		}
 	}
 	m.class(class)
+}
+
+// runBigLegacyCase: a large key set (> 65535 nodes) written in a historical layout by the
+// harness's writers, loaded by the real Unmarshal and observed like the other large tries
+// (Layer P; the event is marked legacy, the spec reports under P:C06:*).
+func runBigLegacyCase(t *Tracer, m *Meta, kind string, n int, kseed int64, layout string) {
+	t.NextCase()
+	c, nq := bigCase(kind, n, kseed, "C06")
+	c.Enc = "i32"
+	rr := rand.New(rand.NewSource(kseed + 7))
+	c.Vals = valsRuns(rr, "i32", len(c.Keys), 1+rr.Intn(4), 0)
+	if strings.HasPrefix(layout, "v3-") {
+		c.Opt4 = [4]int{0, 0, 0, 0} // an old stream holds every key, step lengths only
+	} else {
+		c.Opt4 = layoutOpt(layout, rr.Intn(2))
+	}
+	m.countCase(c)
+	params := Ev{"kind": kind, "nreq": n, "kseed": fmt.Sprint(kseed), "prop": "C06", "layout": layout}
+	b, ok := legacyBytes(c, layout)
+	if !ok {
+		m.class("biglegacy:unwritable-" + layout)
+		return
+	}
+	st, ec, pan := loadLegacy(c, b, false)
+	if st == nil {
+		t.Emit(Ev{"ev": "bigfail", "err": ec, "pan": pan, "n": len(c.Keys), "legacy": 1, "params": params})
+		return
+	}
+	ret := retained(c)
+	idx := make(map[string]int, len(c.Keys))
+	for i, k := range c.Keys {
+		idx[k] = i
+	}
+	qs := []string{c.Keys[0], c.Keys[len(c.Keys)-1], "", "\xff\xff\xff\xff\xff"}
+	for i := 0; i < nq; i++ {
+		k := c.Keys[rr.Intn(len(c.Keys))]
+		if i > nq*2/3 {
+			k = c.Keys[len(c.Keys)-1-rr.Intn(400)] // the last keys: the largest node ids
+		}
+		switch rr.Intn(6) {
+		case 3:
+			bb := []byte(k)
+			if len(bb) > 0 {
+				bb[rr.Intn(len(bb))] ^= 1 << uint(rr.Intn(8))
+			}
+			k = string(bb)
+		case 4:
+			k = k[:rr.Intn(len(k)+1)]
+		}
+		qs = append(qs, k)
+	}
+	items := []interface{}{}
+	for _, q := range qs {
+		it := bigItem(c, st, ret, idx, q)
+		it["fresh"] = []interface{}{it["id"], it["get"], it["rget"], it["srch"]}
+		items = append(items, it)
+	}
+	stat := StatEv(st)
+	s3 := []interface{}{stat["keycnt"], stat["nodecnt"], stat["levels"]}
+	t.Emit(Ev{"ev": "obsbig", "params": params, "n": len(c.Keys), "nret": len(ret), "opt": c.Opt4[:], "hasvals": true, "enc": c.Enc,
+		"loaded": 1, "items": items, "keycnt": stat["keycnt"], "nodecnt": stat["nodecnt"], "statpan": stat["pan"],
+		"stat3": s3, "freshstat": s3, "legacy": 1})
+	m.Calls += 4 * len(qs)
+	m.class("biglegacy:" + layout)
+	if nc, ok := stat["nodecnt"].(int); ok {
+		m.class(fmt.Sprintf("biglegacy:nodes=%dk", nc/1000))
+	}
 }
 
 // bigCase regenerates a large case from its parameters (replay needs no key list).
@@ -209,6 +277,20 @@ func bigCase(kind string, n int, kseed int64, prop string) (*TrieCase, int) {
 func genBig(t *Tracer, m *Meta, prop, tier string, seed int64) {
 	r := rand.New(rand.NewSource(seed*141650939 + int64(prop[2])))
 	quick := tier == "quick"
+	if prop == "C06" {
+		// layouts that can hold more than 65535 nodes: packed 16-bit bitmaps with a rank index
+		// (0.5.4 .. 0.5.9) and the 0.5.10/0.5.11 message
+		layouts := []string{"v3-0.5.5", "v3-0.5.9", "v0510-nopref-0.5.10", "v0510-allpref-0.5.11", "v3-0.5.7", "v0510-innpref-0.5.10"}
+		nl := 2
+		if !quick {
+			nl = len(layouts)
+		}
+		for i := 0; i < nl; i++ {
+			layout := layouts[(i+int(seed))%len(layouts)]
+			runBigLegacyCase(t, m, fmt.Sprintf("random%d", (i+int(seed))%3), 70000, r.Int63(), layout)
+		}
+		return
+	}
 	type spec struct {
 		kind string
 		n    int
